@@ -14,7 +14,7 @@ import (
 
 func init() {
 	Register(&Scenario{Prop: "C07", Name: "docstore-lww", Run: scenC07, SoftParks: true, Weight: 1,
-		Rule: "1-3 writer replicas of one document database; 3-14 (thorough 3-40) operations drawn from Put, PutBatch, PutAll (overlapping key sets), Delete (present and absent keys) over mixed-case keys of letters, digits and punctuation, interleaved with replication under faults; at every quiescent step each replica's documents must equal the LWW replay of its own log; at checkpoints Get with all four option combinations over every key, every 1-2 character infix and case variants, and four Query predicates are compared with the model; Delete of an absent key must fail and append nothing; non-trivial = >=3 writes including a batch put and an overlapping later/earlier single operation on one of its keys"})
+		Rule: "1-3 writer replicas of one document database; 3-14 (thorough 3-40) operations drawn from Put, PutBatch, PutAll (overlapping key sets), Delete (present and absent keys) over mixed-case keys of letters, digits and punctuation, interleaved with replication under faults; at every quiescent step each replica's documents must equal the LWW replay of its own log; at checkpoints Get with all four option combinations over every key, every 1-2 character infix and case variants, and four Query predicates are compared with the model; Delete of an absent key must fail and append nothing; non-trivial = >=3 writes including a batch put and an overlapping later/earlier single operation on one of its keys; one operation in six is a burst of 2-3 concurrent local writers stepped through the write path or free-running (the client of one of them may give up mid-write)"})
 }
 
 var c07Keys = []string{"Ab", "ab", "aB.c", "x-1", "X-1", "ab2", "Q_q"}
@@ -34,6 +34,9 @@ func scenC07(k *K) {
 			if s == nil {
 				continue
 			}
+			if k.opsInFlightOn(i) > 0 {
+				continue // a write that has not returned may be in the log and not yet in the documents
+			}
 			want := ReplayLWW(LogValues(s))
 			got, err := docState(s.(iface.DocumentStore))
 			if err != nil {
@@ -50,8 +53,17 @@ func scenC07(k *K) {
 	overlap := false
 	gets := 0
 	doc := func(key, val string) map[string]interface{} { return map[string]interface{}{"_id": key, "v": val} }
+	c.BurstCancel = k.C.Chance(1, 2)
 	for i := 0; i < nops; i++ {
 		node := k.C.Intn(n)
+		if k.C.Chance(1, 6) {
+			// concurrent local writers (put, batch put, delete on a small key set); the client
+			// of one of them may give up mid-write
+			c.WriteBurst(node, k.C.Range(2, 3), k.C.Chance(1, 2))
+			k.Steps(k.C.Intn(6))
+			checkState("after-burst")
+			continue
+		}
 		ds := c.Stores[node].(iface.DocumentStore)
 		key := c07Keys[k.C.Intn(nkeys)]
 		switch k.C.Weighted([]int{4, 3, 2, 2}) {
